@@ -92,6 +92,13 @@ type view struct {
 	gets map[string]string // key -> canonical get result, for every key of the universe at recording time
 }
 
+// mark: one undo mark handed out by the buffer, with the view recorded when it was set
+type mark struct {
+	isStage bool
+	cp      *unionstore.MemDBCheckpoint
+	at      view
+}
+
 type env struct {
 	mode    string // us-art | us-rbt | txn
 	content map[string][]byte
@@ -102,10 +109,8 @@ type env struct {
 	snap *fakeSnap
 	txn  *transaction.KVTxn
 
-	universe   map[string]struct{}
-	stageViews []view
-	cps        []*unionstore.MemDBCheckpoint
-	cpViews    []view
+	universe map[string]struct{}
+	marks    []mark // undo marks, oldest first: staging levels and checkpoints in the order they were set
 }
 
 var (
@@ -479,7 +484,61 @@ func unhexAll(ws []string) ([][]byte, bool) {
 	return out, true
 }
 
-func (e *env) dropSavepoints() { e.cps, e.cpViews = nil, nil }
+func (e *env) depth() int {
+	n := 0
+	for _, m := range e.marks {
+		if m.isStage {
+			n++
+		}
+	}
+	return n
+}
+
+// innermostStage: index of the newest staging mark, -1 if there is none
+func (e *env) innermostStage() int {
+	for i := len(e.marks) - 1; i >= 0; i-- {
+		if e.marks[i].isStage {
+			return i
+		}
+	}
+	return -1
+}
+
+// findCp: index in marks of the i-th checkpoint (counted from the oldest) if RevertToCheckpoint to it is
+// meaningful now: it has not been cut away and no staging level opened after it is still open; else -1
+func (e *env) findCp(i int) int {
+	for j := len(e.marks) - 1; j >= 0; j-- {
+		if e.marks[j].isStage {
+			return -1
+		}
+		n := 0
+		for _, m := range e.marks[:j] {
+			if !m.isStage {
+				n++
+			}
+		}
+		if n == i {
+			return j
+		}
+	}
+	return -1
+}
+
+// validCps: the checkpoint numbers findCp accepts right now (newest first)
+func (e *env) validCps() []int {
+	var out []int
+	total := 0
+	for _, m := range e.marks {
+		if !m.isStage {
+			total++
+		}
+	}
+	for j := len(e.marks) - 1; j >= 0 && !e.marks[j].isStage; j-- {
+		total--
+		out = append(out, total)
+	}
+	return out
+}
 
 func exec(line string) string {
 	return vx.Guard(func() string {
@@ -541,6 +600,25 @@ func exec(line string) string {
 				return "bad-op"
 			}
 			return e.get(k)
+		case w[0] == "sbget":
+			// BufferSnapshotBatchGetter.BatchGet: same body as BufferBatchGetter.BatchGet, repaired by the same commit
+			keys, ok := unhexAll(w[1:])
+			if !ok {
+				return "bad-op"
+			}
+			var snap kv.BatchGetter = e.snap
+			if e.txn != nil {
+				snap = e.txn.GetSnapshot()
+			}
+			m, err := transaction.NewBufferSnapshotBatchGetter(e.buf, snap).BatchGet(context.Background(), keys)
+			if err != nil {
+				return "err"
+			}
+			out := make(map[string][]byte, len(m))
+			for k, v := range m {
+				out[k] = v.Value
+			}
+			return mapListing(out)
 		case w[0] == "bget":
 			keys, ok := unhexAll(w[1:])
 			if !ok {
@@ -562,24 +640,24 @@ func exec(line string) string {
 		case w[0] == "staging" && len(w) == 1:
 			v := e.record()
 			h := e.buf.Staging()
-			e.stageViews = append(e.stageViews, v)
-			e.dropSavepoints()
+			e.marks = append(e.marks, mark{isStage: true, at: v})
 			return "h " + strconv.Itoa(h)
 		case (w[0] == "release" || w[0] == "cleanup" || w[0] == "prelease" || w[0] == "pcleanup") && len(w) == 2:
 			h, err := strconv.Atoi(w[1])
 			if err != nil || h < 0 || h > 1000 {
 				return "bad-op"
 			}
-			depth := len(e.stageViews)
+			depth := e.depth()
 			prop := w[0][0] == 'p'
 			if prop && (h != depth || h == 0) {
 				return "bad-op" // property forms are only defined for the innermost live handle
 			}
+			isRelease := w[0] == "release" || w[0] == "prelease"
 			// a handle that is not the innermost live one is refused by a panic before anything is touched
 			// ("should never happen in production"): that is the documented answer, not a crash of the harness
-			if h != 0 && ((w[0] == "release" && h != depth) || (w[0] == "cleanup" && h < depth)) {
+			if h != 0 && ((isRelease && h != depth) || (!isRelease && h < depth)) {
 				if refused(func() {
-					if w[0] == "release" {
+					if isRelease {
 						e.buf.Release(h)
 					} else {
 						e.buf.Cleanup(h)
@@ -589,45 +667,55 @@ func exec(line string) string {
 				}
 				return "FAIL stale-handle-accepted"
 			}
-			switch w[0] {
-			case "release":
+			var before, at view
+			si := e.innermostStage()
+			if w[0] == "prelease" {
+				before = e.record()
+			}
+			if w[0] == "pcleanup" {
+				at = e.marks[si].at
+			}
+			if isRelease {
 				e.buf.Release(h)
-			case "cleanup":
+			} else {
 				e.buf.Cleanup(h)
-			case "prelease":
-				before := e.record()
-				e.buf.Release(h)
-				e.stageViews = e.stageViews[:depth-1]
-				e.dropSavepoints()
-				return e.sameView(before)
-			case "pcleanup":
-				at := e.stageViews[depth-1]
-				e.buf.Cleanup(h)
-				e.stageViews = e.stageViews[:depth-1]
-				e.dropSavepoints()
-				return e.sameView(at)
 			}
 			if h == depth && h != 0 {
-				e.stageViews = e.stageViews[:depth-1]
-				e.dropSavepoints()
+				if isRelease { // the level's mark goes, newer checkpoints stay usable (the value log is untouched)
+					e.marks = append(e.marks[:si:si], e.marks[si+1:]...)
+				} else { // the value log is cut back to the level's mark: every newer mark is gone
+					e.marks = e.marks[:si]
+				}
+			}
+			switch w[0] {
+			case "prelease":
+				return e.sameView(before)
+			case "pcleanup":
+				return e.sameView(at)
 			}
 			return "ok"
 		case w[0] == "cp" && len(w) == 1:
 			v := e.record()
-			e.cps = append(e.cps, e.buf.Checkpoint())
-			e.cpViews = append(e.cpViews, v)
-			return "cp " + strconv.Itoa(len(e.cps)-1)
+			n := 0
+			for _, m := range e.marks {
+				if !m.isStage {
+					n++
+				}
+			}
+			e.marks = append(e.marks, mark{cp: e.buf.Checkpoint(), at: v})
+			return "cp " + strconv.Itoa(n)
 		case (w[0] == "revert" || w[0] == "prevert") && len(w) == 2:
 			i, err := strconv.Atoi(w[1])
-			if err != nil {
+			if err != nil || i < 0 {
 				return "bad-op"
 			}
-			if i < 0 || i >= len(e.cps) {
-				return "bad-cp"
+			j := e.findCp(i)
+			if j < 0 {
+				return "bad-cp" // the real code is not called with a checkpoint that is no position of its log any more
 			}
-			e.buf.RevertToCheckpoint(e.cps[i])
-			at := e.cpViews[i]
-			e.cps, e.cpViews = e.cps[:i+1], e.cpViews[:i+1]
+			e.buf.RevertToCheckpoint(e.marks[j].cp)
+			at := e.marks[j].at
+			e.marks = e.marks[:j+1]
 			if w[0] == "prevert" {
 				return e.sameView(at)
 			}
@@ -658,11 +746,7 @@ type gen struct {
 	r    *vx.Rand
 	run  *vx.Run
 	pool [][]byte
-	// shadow bookkeeping (only what the generator needs to stay inside the op preconditions)
-	mode    string
-	depth   int
-	cps     int
-	tainted []bool // cp i has seen a same-length overwrite of a buffered value after it (S10 pattern, owned by C08)
+	mode string
 }
 
 func (g *gen) randKey() []byte {
@@ -795,8 +879,12 @@ func (g *gen) keyList() string {
 	for i := 0; i < n; i++ {
 		ws = append(ws, vx.Hex(g.key()))
 	}
-	if g.r.Chance(25) && len(ws) > 0 { // duplicated key in one batch
-		ws = append(ws, ws[g.r.Intn(len(ws))])
+	if g.r.Chance(30) && len(ws) > 0 { // duplicated keys in one batch (adjacent, apart, more than twice)
+		for n := 1 + g.r.Intn(2); n > 0; n-- {
+			at := g.r.Intn(len(ws) + 1)
+			ws = append(ws[:at:at], append([]string{ws[g.r.Intn(len(ws))]}, ws[at:]...)...)
+		}
+		g.run.Count("batch:duplicated-key")
 	}
 	return strings.Join(ws, " ")
 }
@@ -812,7 +900,7 @@ func (g *gen) oneCase(n int, mode string, nOps int, thorough bool) {
 	g.run.Comment("case " + strconv.Itoa(n) + " " + mode)
 	g.run.Count("mode:" + mode)
 	g.makePool(thorough)
-	g.mode, g.depth, g.cps, g.tainted = mode, 0, 0, nil
+	g.mode = mode
 	g.do("reset " + mode)
 	for _, k := range g.pool {
 		if g.r.Chance(55) {
@@ -827,18 +915,14 @@ func (g *gen) oneCase(n int, mode string, nOps int, thorough bool) {
 			if g.r.Chance(2) {
 				v = nil // ErrCannotSetNilValue
 			}
-			if g.cps > 0 && len(v) > 0 {
-				// S10 (RevertToCheckpoint does not undo a same-length in-place overwrite) belongs to C08:
-				// keep the pattern out of `revert` by changing the length or by retiring the checkpoints
-				if old, err := cur.buf.GetLocal(context.Background(), k); err == nil && len(old) == len(v) {
-					if g.r.Chance(60) {
-						v = append(v, byte(g.r.U64()))
-						g.run.Count("s10-avoided:length-changed")
-					} else {
-						for j := range g.tainted {
-							g.tainted[j] = true
-						}
-						g.run.Count("s10-avoided:checkpoint-retired")
+			if g.r.Chance(30) && len(v) > 0 && cur.buf != nil {
+				// same-length overwrite of the buffered value: the in-place path of both buffers
+				if old, err := cur.buf.GetLocal(context.Background(), k); err == nil && len(old) > 0 {
+					v = append([]byte{}, old...)
+					v[g.r.Intn(len(v))] ^= byte(1 + g.r.Intn(255))
+					g.run.Count("set:same-length-overwrite")
+					if len(cur.validCps()) > 0 {
+						g.run.Count("set:same-length-overwrite-after-checkpoint")
 					}
 				}
 			}
@@ -848,7 +932,7 @@ func (g *gen) oneCase(n int, mode string, nOps int, thorough bool) {
 		case x < 46:
 			g.do("get " + vx.Hex(g.key()))
 		case x < 51:
-			g.do("bget " + g.keyList())
+			g.do([]string{"bget ", "bget ", "sbget "}[g.r.Intn(3)] + g.keyList())
 		case x < 55:
 			g.do("pbget " + g.keyList())
 		case x < 61:
@@ -861,48 +945,43 @@ func (g *gen) oneCase(n int, mode string, nOps int, thorough bool) {
 			lo, hi := g.rangeToks()
 			g.do("pview " + lo + " " + hi)
 		case x < 83:
-			if g.depth < 4 {
+			if cur.depth() < 4 {
 				g.do("staging")
-				g.depth++
-				g.cps, g.tainted = 0, nil
 			}
 		case x < 91:
-			if g.depth == 0 && !g.r.Chance(12) {
+			depth := cur.depth()
+			if depth == 0 && !g.r.Chance(12) {
 				break
 			}
-			if g.depth == 0 || g.r.Chance(4) {
+			if depth == 0 || g.r.Chance(4) {
 				// invalid handles: 0 is a no-op, too large is a no-op for cleanup, anything else panics
-				h := []int{0, g.depth + 1, g.depth - 1}[g.r.Intn(3)]
+				h := []int{0, depth + 1, depth - 1}[g.r.Intn(3)]
 				if h >= 0 {
 					g.do([]string{"release ", "cleanup "}[g.r.Intn(2)] + strconv.Itoa(h))
 				}
 				break
 			}
 			op := []string{"release ", "cleanup ", "prelease ", "pcleanup ", "pcleanup "}[g.r.Intn(5)]
-			g.do(op + strconv.Itoa(g.depth))
-			g.depth--
-			g.cps, g.tainted = 0, nil
+			g.do(op + strconv.Itoa(depth))
 		case x < 95:
-			if g.cps < 4 {
+			if len(cur.marks)-cur.depth() < 6 {
 				g.do("cp")
-				g.cps++
-				g.tainted = append(g.tainted, false)
 			}
 		default:
-			if g.cps == 0 {
-				if g.r.Chance(10) {
-					g.do("revert 0") // bad-cp
+			valid := cur.validCps()
+			op := []string{"revert ", "prevert ", "prevert "}[g.r.Intn(3)]
+			if len(valid) == 0 || g.r.Chance(8) {
+				if g.r.Chance(25) || len(valid) > 0 {
+					// a checkpoint that was cut away, lies under an open staging level, or never existed: bad-cp
+					g.do("revert " + strconv.Itoa(g.r.Intn(7)))
 				}
 				break
 			}
-			i := g.r.Intn(g.cps)
-			if g.tainted[i] {
-				g.run.Count("s10-avoided:revert-suppressed")
-				break
+			i := valid[g.r.Intn(len(valid))]
+			if len(valid) > 1 && i != valid[0] {
+				g.run.Count("revert:to-older-checkpoint")
 			}
-			g.do([]string{"revert ", "prevert ", "prevert "}[g.r.Intn(3)] + strconv.Itoa(i))
-			g.cps = i + 1
-			g.tainted = g.tainted[:i+1]
+			g.do(op + strconv.Itoa(i))
 		}
 	}
 	g.do("pview nil nil")
